@@ -32,7 +32,7 @@ RULE = (
     "connection (stale ones included); check `refcount` = share() and ref_count() on each of those connectables; check "
     "`autoconnect` = auto_connect(0..3) on each; check `mapper` = publish(mapper), replay(mapper=), publish_value(v, "
     "mapper), multicast(subject_factory=, mapper=) with mapper in {identity, use-the-connectable-twice}; check `enum` = "
-    "ALL histories of length <= 4 (quick) / 5 (thorough) over a fixed alphabet for 7 forms x 3 sources. Oracle = "
+    "ALL histories of length <= 5 (thorough; quick: <= 3, and 4 over the cold source) over a fixed alphabet for 7 forms x 3 sources. Oracle = "
     "independent model: one source subscription per effective connect, open from the connect tick to the tick of the "
     "disconnect or of the source's terminal; connect while connected is a no-op whose returned handle disconnects the "
     "same connection; ref_count/share connect at count 0->1 and disconnect at ->0; auto_connect(n) connects at the "
@@ -942,6 +942,8 @@ def _enum(tier):
             alpha += [["adv", 2]]
         for src in _ENUM_SRCS:
             for n in range(1, L + 1):
+                if tier == "quick" and n == L and src["kind"] != "cold":
+                    continue  # quick: the longest length only over the cold source
                 for cmds in itertools.product(alpha, repeat=n):
                     if cmds[-1][0] == "adv":
                         continue  # trailing advances are appended to every history anyway
@@ -959,9 +961,9 @@ def checks(tier):
         )
 
     return [
-        gen("connectable", 2400, 16 * 20000),
-        gen("refcount", 2000, 16 * 15000),
-        gen("autoconnect", 1600, 16 * 10000),
-        gen("mapper", 1600, 16 * 10000),
+        gen("connectable", 2400, 16 * 12000),
+        gen("refcount", 2000, 16 * 10000),
+        gen("autoconnect", 1600, 16 * 6000),
+        gen("mapper", 1600, 16 * 6000),
         Check("enum", _run, cases=_enum, shards={"quick": 8, "thorough": 16}, exhaustive=True),
     ]
